@@ -102,6 +102,8 @@ pub struct Prep {
     pub r_amt: u64,
     pub big_borrow: u64,
     pub small_borrow: u64,
+    /// a second, unrelated group created by the liquidator, who is its admin and risk admin (group creation is permissionless)
+    pub foreign_group: Pubkey,
 }
 
 fn prepare(c: &BrCase, c10: bool) -> Option<Prep> {
@@ -210,7 +212,35 @@ fn prepare(c: &BrCase, c10: bool) -> Option<Prep> {
         }
     }
     let liq = w.tok(&w.banks[lb].lv);
-    Some(Prep { w, u, v, l, w_amt, r_amt, big_borrow: (power.saturating_mul(3)).min(liq / 2).max(amt), small_borrow: (amt / 50).max(1) })
+    // the liquidator's own group: initialise + configure with every role = the liquidator
+    let foreign_group = kp("foreign_group", 0);
+    {
+        use anchor_lang::{InstructionData, ToAccountMetas};
+        let ix = Instruction {
+            program_id: marginfi::ID,
+            accounts: marginfi::accounts::MarginfiGroupInitialize { marginfi_group: foreign_group, admin: l.auth, fee_state: w.fee_state, system_program: solana_program::system_program::ID }.to_account_metas(Some(true)),
+            data: marginfi::instruction::MarginfiGroupInitialize {}.data(),
+        };
+        w.vm.exec(&ix).ok()?;
+        let ix = Instruction {
+            program_id: marginfi::ID,
+            accounts: marginfi::accounts::MarginfiGroupConfigure { marginfi_group: foreign_group, admin: l.auth }.to_account_metas(Some(true)),
+            data: marginfi::instruction::MarginfiGroupConfigure {
+                new_admin: l.auth,
+                new_emode_admin: l.auth,
+                new_curve_admin: l.auth,
+                new_limit_admin: l.auth,
+                new_emissions_admin: l.auth,
+                new_metadata_admin: l.auth,
+                new_risk_admin: l.auth,
+                emode_max_init_leverage: None,
+                emode_max_maint_leverage: None,
+            }
+            .data(),
+        };
+        w.vm.exec(&ix).ok()?;
+    }
+    Some(Prep { w, u, v, l, w_amt, r_amt, big_borrow: (power.saturating_mul(3)).min(liq / 2).max(amt), small_borrow: (amt / 50).max(1), foreign_group })
 }
 
 // ------------------------------------------------------------------------------------------
@@ -218,7 +248,7 @@ fn prepare(c: &BrCase, c10: bool) -> Option<Prep> {
 // ------------------------------------------------------------------------------------------
 // a trailing "+" = the same instruction with one extra byte appended to its data (Anchor ignores
 // trailing bytes, so it dispatches identically; validators that compare whole data would not)
-pub const C10_SYMS: &[&str] = &["cb", "sA", "sV", "eA", "eV", "wA", "rA", "bA", "dA", "irW", "kr", "js", "sd", "un", "fsA", "feA", "p:sA", "p:eA", "p:wA", "p:rA", "wBig", "sA+", "sV+", "eA+", "eA0", "sA1", "sA2"];
+pub const C10_SYMS: &[&str] = &["cb", "sA", "sV", "eA", "eV", "wA", "rA", "bA", "dA", "irW", "kr", "js", "sd", "un", "fsA", "feA", "p:sA", "p:eA", "p:wA", "p:rA", "wBig", "sA+", "sV+", "eA+", "eA0", "sA1", "sA2", "sdF", "edF"];
 // "feV&A" = end for account V with account U appended as a trailing (ignored) remaining account;
 // "feA0" / "feA1" = a genuine end for U whose observation accounts are missing altogether / lack the borrowed bank
 // (the risk engine cannot be built: the end must fail, never pass unchecked)
@@ -286,6 +316,16 @@ fn build_ix(p: &Prep, sym: &str) -> Instruction {
         "sV" => w.ix_start_liquidation(va, p.l.auth),
         "eA" => w.ix_end_liquidation(ua, p.l.auth, w.risk_metas(&ua, None, None)),
         "eV" => w.ix_end_liquidation(va, p.l.auth, w.risk_metas(&va, None, None)),
+        // a deleverage bracket on U run by the risk admin of ANOTHER group (the liquidator's own, unrelated group)
+        "sdF" | "edF" => {
+            let mut wf = w.clone();
+            wf.group = p.foreign_group;
+            if sym == "sdF" {
+                wf.ix_start_deleverage(ua, p.l.auth)
+            } else {
+                wf.ix_end_deleverage(ua, p.l.auth, w.risk_metas(&ua, None, None))
+            }
+        }
         // a genuine end for U whose observation accounts are missing: the end-of-bracket health comparison cannot be
         // made, so it must fail (never pass unchecked)
         "eA0" => w.ix_end_liquidation(ua, p.l.auth, vec![]),
@@ -773,7 +813,7 @@ pub fn run_case(c: &BrCase, c10: bool, stats: &mut Stats, shard: Option<(usize, 
     Ok(())
 }
 
-const RULE_C10: &str = "per generated world (2 banks; generated decimals, token programs, weights, oracles; a borrower steered to a generated maintenance health, mostly liquidatable, sometimes healthy; liquidation records created): EXHAUSTIVE enumeration of all transaction shapes up to the stated length over the 27-symbol alphabet (incl. trailing-byte variants of start/end, a start whose observation accounts lack the collateral bank and an end without observation accounts) {compute-budget, start(U), start(V), end(U), end(V), withdraw(U) by third party, big withdraw, repay(U), borrow(U), deposit(U), init-record, kamino-refresh (whitelisted), allowed-program swap, short-data ix, unknown-program ix, flash start/end, and start/end/withdraw/repay via CPI from an allow-listed proxy program} plus random longer shapes; every shape executed as one atomic transaction through the real entry point. Commit-time oracle: no receivership flag / receiver survives; if a third party controlled the account then the shape is in the language written from the statement (start first after compute/whitelisted, end last, only withdraw/repay/record-init between, allowed programs, no CPI), the account was not healthy, health not worse, not ended healthy and premium <= max(fee,5%) unless equity < $5 (definite breaches on enclosures, under both price readings). Non-trivial = committed transactions in which a third party controlled the account; distinct by (shape, world hash).";
+const RULE_C10: &str = "per generated world (2 banks; generated decimals, token programs, weights, oracles; a borrower steered to a generated maintenance health, mostly liquidatable, sometimes healthy; liquidation records created): EXHAUSTIVE enumeration of all transaction shapes up to the stated length over the 29-symbol alphabet (incl. trailing-byte variants of start/end, a start whose observation accounts lack the collateral bank an end without observation accounts, and a deleverage start / end run by the risk admin of an unrelated group) {compute-budget, start(U), start(V), end(U), end(V), withdraw(U) by third party, big withdraw, repay(U), borrow(U), deposit(U), init-record, kamino-refresh (whitelisted), allowed-program swap, short-data ix, unknown-program ix, flash start/end, and start/end/withdraw/repay via CPI from an allow-listed proxy program} plus random longer shapes; every shape executed as one atomic transaction through the real entry point. Commit-time oracle: no receivership flag / receiver survives; if a third party controlled the account then the shape is in the language written from the statement (start first after compute/whitelisted, end last, only withdraw/repay/record-init between, allowed programs, no CPI), the account was not healthy, health not worse, not ended healthy and premium <= max(fee,5%) unless equity < $5 (definite breaches on enclosures, under both price readings). Non-trivial = committed transactions in which a third party controlled the account; distinct by (shape, world hash).";
 const RULE_C11: &str = "per generated world (account normal / frozen / disabled-by-transfer): EXHAUSTIVE enumeration of all transaction shapes up to the stated length over the 31-symbol alphabet (incl. an end for another account that merely lists U, a trailing-byte end, and ends whose observation accounts are missing or lack the borrowed bank) {flash start naming end index 0,1,2,3,4,9 and 65536+0, 65536+1, 2^32+1 (aliases of 0 / 1 under 16- / 32-bit narrowing); end(U); end(V); big borrow (unhealthy); small borrow; big withdraw; deposit; repay_all; classic liquidate(U); bankruptcy(U); start_liquidation(U); end_liquidation(U); transfer(U); close(U); start/end/borrow via CPI; compute-budget} plus random longer shapes, each executed atomically. Oracle: per executed instruction — a start that set the flag named a later end(U) of this program, was top-level, on an unflagged account, not nested; liquidation/bankruptcy/start_liquidation never succeed on a flagged account; at commit — no flash-loan flag survives, and if an action inside left the account initially unhealthy (reference model) then an end(U) follows and the account is not unhealthy at commit. Non-trivial = committed transactions containing a borrow/withdraw that skipped the health check.";
 
 pub fn run(ctx: &Ctx, c10: bool) -> Report {
